@@ -159,6 +159,11 @@ def template_tokens(fmt):
     return toks
 
 
+def shape(fmt):
+    """template text with the placeholder types dropped: stable part of an obligation key"""
+    return ''.join(p[1] if p[0] == 'lit' else '{}' for p in fmt.pieces).rstrip('\n')
+
+
 def first_word(fmt):
     toks = template_tokens(fmt)
     if toks and toks[0] and all(p[0] == 'lit' for p in toks[0]):
